@@ -361,6 +361,39 @@ pub fn run(ctx: &mut Ctx) {
             }
         }
 
+        // an assertion swapped for its compressed form and back through replace_assertion (the two arguments
+        // are digest-equal, the result must hold the form that was given)
+        // (not on a node whose subject is itself a node: removing its last assertion leaves that inner node, and
+        // adding to it extends the inner node - a different, legitimate structure)
+        if t.kind == Kind::Node && t.children.len() > 1 && t.children[0].kind != Kind::Node {
+            let asr = e.assertions();
+            let a = asr[rng.below(asr.len())].clone();
+            if !a.is_obscured() {
+                if let Ok(ca) = a.compress() {
+                    ctx.eval();
+                    ctx.count("assertion_swapped_for_compressed_form");
+                    match trap::guard(|| {
+                        let e2 = e.replace_assertion(a.clone(), ca.clone())?;
+                        let e3 = e2.replace_assertion(ca.clone(), ca.uncompress()?)?;
+                        Ok::<_, anyhow::Error>((e2, e3))
+                    }) {
+                        Ok(Ok((e2, e3))) => {
+                            let d = bc_components::DigestProvider::digest(&a).into_owned();
+                            let at = e2.assertions().into_iter().find(|x| bc_components::DigestProvider::digest(x).into_owned() == d);
+                            if gen::root_digest(&e2) != t.digest || !at.map(|x| x.is_compressed()).unwrap_or(false) {
+                                ctx.violation("swap-compressed-form/not-installed", "replace_assertion(a, compress(a)) did not put the compressed form in place (or changed the digest)", replay());
+                            }
+                            if env_bytes(&e3) != env_bytes(&e) {
+                                ctx.violation("swap-compressed-form/not-restored", "replacing the compressed assertion by its uncompressed form does not give the original back", replay());
+                            }
+                        }
+                        Ok(Err(err)) => ctx.violation("swap-compressed-form/err", &format!("{}", err), replay()),
+                        Err(p) => ctx.violation(&format!("swap-compressed-form/panic/{}", p.signature()), &format!("{:?}", p), replay()),
+                    }
+                }
+            }
+        }
+
         // faults on the compressed element
         let exhaustive = ctx.tier == crate::ctx::Tier::Thorough && case % 8 == 0;
         faults(ctx, &e, &c, &mut rng, exhaustive);
